@@ -5,6 +5,13 @@ import re
 
 m = json.load(open("seeded/MATRIX.json"))
 NOTES = {
+    "C03-D": "round 4; first missed (no history grew past one 256-row tile; C03 did not look at the tile writer): C03 re-verifies C07's tile-loop contracts, stand-in grows tables past 256 rows",
+    "C06-D": "round 4; first missed: row_storage_map brought under contract (one store per record, at its flat position) and an empty-row-records layout variant added",
+    "C08-D": "round 4; first missed (no literal needed 16-17 digits): number_to_str contract for the no-exponent case + such literals in the stand-in",
+    "C09-D": "round 4; first missed (one header row at most): tables with 2 header rows/columns, resolver label rule corrected, _column_data/_row_data under contract",
+    "C12-D": "round 4; first missed (needs a document authored in Numbers that already holds merges): calculate_merge_cell_ranges under contract, fixtures with merges in the stand-in",
+    "C20-D": "round 4; first missed: 20-45 digit integers added to the number pool",
+    "C05-D": "round 4; first caught by the deductive side only: header lengths around the varint boundaries in the stand-in, native search for to_buffer",
     "C11-A": "first missed (regex flags ignored by the encoder); engine corrected, now caught",
     "C15-A": "first missed; stand-in strengthened with near-duplicate style pairs; later also a complete syntactic obligation on the style key",
     "C06-B": "caught by the stand-in; later also a complete syntactic obligation (the rich-text scan cannot end before the key is found)",
